@@ -258,6 +258,7 @@ type Render struct {
 	JunkEvents   int
 	Unknown      int
 	SecOrder     int // 0 styles section, then events; 1 events before the styles; 2 one style before the events, the others in a second styles section after them
+	SecondAttrs  int // with SecOrder 2: the second styles section declares its own Format with Name + the first SecondAttrs attribute columns only (0 = the same Format); its styles then have those attributes only
 }
 
 func identity(n int) []int {
@@ -521,7 +522,7 @@ func (d Doc) Bytes(r Render) []byte {
 	blank()
 	unknown(1)
 	// --- styles
-	emitStyles := func(styles []Style) {
+	emitStyles := func(styles []Style, nattrs int) {
 		if len(styles) == 0 {
 			return
 		}
@@ -537,8 +538,17 @@ func (d Doc) Bytes(r Render) []byte {
 			lines = append(lines, "Not understood line")
 		}
 		cols := append([]string{"Name"}, d.StyleAttrs...)
+		order := r.StyleOrder
+		if nattrs > 0 && nattrs < len(d.StyleAttrs) {
+			order = nil
+			for _, k := range r.StyleOrder {
+				if k <= nattrs {
+					order = append(order, k)
+				}
+			}
+		}
 		var names []string
-		for _, k := range r.StyleOrder {
+		for _, k := range order {
 			names = append(names, d.styleColName(cols[k], r))
 		}
 		lines = append(lines, kv("Format", strings.Join(names, r.FormatSep), r))
@@ -547,7 +557,7 @@ func (d Doc) Bytes(r Render) []byte {
 		}
 		for _, s := range styles {
 			var cells []string
-			for _, k := range r.StyleOrder {
+			for _, k := range order {
 				if cols[k] == "Name" {
 					cells = append(cells, s.Name)
 					continue
@@ -624,15 +634,15 @@ func (d Doc) Bytes(r Render) []byte {
 		unknown(2)
 		emitEvents()
 		blank()
-		emitStyles(d.Styles)
+		emitStyles(d.Styles, 0)
 	case r.SecOrder == 2 && len(d.Styles) >= 2:
-		emitStyles(d.Styles[:1])
+		emitStyles(d.Styles[:1], 0)
 		unknown(2)
 		emitEvents()
 		blank()
-		emitStyles(d.Styles[1:])
+		emitStyles(d.Styles[1:], r.SecondAttrs)
 	default:
-		emitStyles(d.Styles)
+		emitStyles(d.Styles, 0)
 		unknown(2)
 		emitEvents()
 	}
